@@ -13,7 +13,7 @@ from simkit.runner import Outcome
 
 PROPERTY = 'C11'
 LEVEL = 'exploration'
-PLAN = {'quick': [('bo', 900)], 'thorough': [('bo', 25000)]}
+PLAN = {'quick': [('bo', 900)], 'thorough': [('bo', 80000)]}
 TIMEOUT = {'quick': 900, 'thorough': 6 * 3600}
 CHUNK = 4
 RULE = ('each run: generated 1-2 parameter model (recording simulator, smooth discrepancy), '
